@@ -5,6 +5,8 @@ CONSTANTS
   MaxFaults = 2
   Batches = 2
   Mutants = {"short_stream", "filter_ok", "retry_local", "http_empty", "ignore_decode", "skip_digest"}
+  MutMaxN = 4
+  MutShapes = {"scatter", "gather"}
 INIT Init
 NEXT Next
 INVARIANT TypeOK
